@@ -106,9 +106,9 @@ def cmd_run(cid, tier):
         print(f"[{chk.PROP}] new violation signature {key} first at run {idx} (hashseed {hs}), {count} instance(s); minimising...", flush=True)
         try:
             if str(hs) == cur_hs:
-                path = chk.minimise_and_write(seed, idx, f, hs)
+                path = chk.minimise_and_write(seed, idx, f, hs, tier=tier)
             else:
-                p = run_sub(["minimise", cid, str(seed), str(idx), json.dumps(f)], hs, timeout=3600)
+                p = run_sub(["minimise", cid, str(seed), str(idx), json.dumps(f), tier], hs, timeout=3600)
                 path = p.stdout.strip().splitlines()[-1] if p.returncode == 0 and p.stdout.strip() else None
                 if not path or not os.path.exists(path):
                     raise RuntimeError(f"minimise subprocess failed: {p.stdout[-500:]} {p.stderr[-1000:]}")
@@ -151,10 +151,10 @@ def cmd_batch(cid, tier, seed, outp):
     return 0
 
 
-def cmd_minimise(cid, seed, idx, finding_json):
+def cmd_minimise(cid, seed, idx, finding_json, tier="quick"):
     zygote_init()
     chk = load_check(cid)
-    path = chk.minimise_and_write(int(seed), int(idx), json.loads(finding_json), os.environ.get("PYTHONHASHSEED", "0"))
+    path = chk.minimise_and_write(int(seed), int(idx), json.loads(finding_json), os.environ.get("PYTHONHASHSEED", "0"), tier=tier)
     print(path)
     return 0
 
@@ -201,7 +201,7 @@ def main(argv):
         if cmd == "batch":
             return cmd_batch(*argv[1:5])
         if cmd == "minimise":
-            return cmd_minimise(*argv[1:5])
+            return cmd_minimise(*argv[1:6])
         if cmd == "replay":
             return cmd_replay(argv[1])
     except AssertionError as e:
